@@ -38,7 +38,7 @@ ASSUMPTIONS = [
     "CPython re, eval/exec and str are trusted",
 ]
 BOUNDS = {
-    "quick": {"text_sections": "<%text> bodies: every sequence of <=3 of 16 pieces that are directives / escapes / tag fragments outside the section, with and without surrounding text", "bytes": "documents given as bytes (BOM+bytes, bytes, BOM+file): all sequences of <=2 (3 with special first two) over 14 pieces incl. U+FEFF U+FEFB U+FFFB U+FFFF U+F000 U+EFFF", "k_full": 3, "k_core": 4, "units": "<=2 all junctions, 3 with junctions {'',LF}", "rep_max": 256, "time_limit": 4},
+    "quick": {"text_sections": "<%text> bodies: every sequence of <=3 of 16 pieces that are directives / escapes / tag fragments outside the section, with and without surrounding text", "bytes": "documents given as bytes (BOM+bytes, bytes, BOM+file): all sequences of <=2 (3 with special first two) over 14 pieces incl. U+FEFF U+FEFB U+FFFB U+FFFF U+F000 U+EFFF", "k_full": 3, "k_core": 4, "units": "<=2 all junctions, 3 with junctions {'',LF}; each also through render() under a rotating output_encoding (utf-8, utf-16, utf-8-sig, utf-32, utf-16-le, utf-7) and decoded", "rep_max": 256, "time_limit": 4},
     "thorough": {"bytes": "as quick", "k_full": 4, "k_core": 5, "units": "<=2 all junctions, 3 with junctions {'',LF,CRLF}, 4 without junctions", "rep_max": 4096, "time_limit": 20},
 }
 
@@ -724,6 +724,9 @@ def _run_job(job, st):
     return st
 
 
+OUT_ENCODINGS = ["utf-8", "utf-16", "utf-8-sig", "utf-32", "utf-16-le", "utf-7"]
+
+
 def check_unit_doc(src, st):
     from mako.template import Template
 
@@ -738,12 +741,27 @@ def check_unit_doc(src, st):
         st.nontrivial += 1
         st.oracles["render_units"] += 1
         try:
-            got = Template(src).render_unicode()
+            # the bytes route: the same text through render() under a rotating output encoding (BOM-writing and
+            # stateful codecs included) must decode to the same characters
+            enc = OUT_ENCODINGS[st.evaluations % len(OUT_ENCODINGS)]
+            t = Template(src, output_encoding=enc)
+            got = t.render_unicode()
             if got != exp:
                 rout = "diff"
                 v = ("render", "unit document renders differently from its documented text", {"expected": exp, "observed": got})
             else:
                 rout = "ok"
+                st.oracles["render_units_bytes"] += 1
+                try:
+                    exp.encode(enc)
+                    representable = True
+                except UnicodeError:
+                    representable = False
+                if representable:
+                    gotb = t.render().decode(enc)
+                    if gotb != exp:
+                        rout = "diff-bytes"
+                        v = ("render", "unit document renders differently through render() with output_encoding=%s" % enc, {"expected": exp, "observed": gotb})
         except _Timeout:
             raise
         except BaseException as e:  # noqa
